@@ -217,6 +217,15 @@ Theorem C15_api_n_jobs_faithful : forall cpu timeout n_jobs kwargs out,
 Proof. exact api_n_jobs_faithful. Qed.
 Print Assumptions C15_api_n_jobs_faithful.
 
+(* a limit the facade was not given reaches none of the parameter objects (the field keeps the default of its
+   class): the facade is a function of its own arguments only *)
+Theorem C15_api_unset_stays_unset : forall cpu timeout n_jobs kwargs out d k,
+  facade cpu timeout n_jobs kwargs = Ok out -> lookup k kwargs = None ->
+  String.eqb k "timeout" = false -> String.eqb k "n_jobs" = false ->
+  lookup_in d out k = None.
+Proof. exact api_unset_stays_unset. Qed.
+Print Assumptions C15_api_unset_stays_unset.
+
 Theorem C15_determine_n_jobs_spec : forall cpu n, 1 <= cpu ->
   (1 <= n <= cpu -> determine_n_jobs cpu n = Ok n) /\
   (- cpu <= n <= -1 -> determine_n_jobs cpu n = Ok (cpu + 1 + n)) /\
